@@ -51,7 +51,9 @@ fn gallina(e: &Expr) -> String {
         }
         Expr::Field(f) if toks(&f.base) == "mapping" => toks(&f.member),
         Expr::MethodCall(m) if m.method == "count_ones" && m.args.is_empty() => format!("(popcount {})", gallina(&m.receiver)),
-        Expr::MethodCall(m) if m.method == "trailing_zeros" && m.args.is_empty() => format!("(trailing_zeros {})", gallina(&m.receiver)),
+        Expr::MethodCall(m) if m.method == "is_power_of_two" && m.args.is_empty() => format!("(is_pow2 {})", gallina(&m.receiver)),
+        Expr::Unary(u) if matches!(u.op, syn::UnOp::Not(_)) => format!("(negb {})", gallina(&u.expr)),
+        Expr::Field(f) if toks(&f.base) == "self" => toks(&f.member),
         Expr::Call(c) if toks(&c.func).replace(' ', "") == "u64::from" && c.args.len() == 1 => gallina(&c.args[0]),
         _ => die(&format!("expression outside the routing subset: {}", toks(e))),
     }
@@ -72,6 +74,24 @@ fn find_fn<'a>(file: &'a syn::File, name: &str) -> &'a syn::ImplItemFn {
         }
     }
     die(&format!("VhostUserHandler::{} not found", name))
+}
+
+/// a method of the `VhostUserBackendReqHandlerMut for VhostUserHandler` impl
+fn find_trait_fn<'a>(file: &'a syn::File, name: &str) -> &'a syn::ImplItemFn {
+    for it in &file.items {
+        if let syn::Item::Impl(im) = it {
+            if toks(&im.self_ty).starts_with("VhostUserHandler") && im.trait_.is_some() {
+                for ii in &im.items {
+                    if let syn::ImplItem::Fn(f) = ii {
+                        if f.sig.ident == name {
+                            return f;
+                        }
+                    }
+                }
+            }
+        }
+    }
+    die(&format!("VhostUserHandler::{} (trait impl) not found", name))
 }
 
 fn first_for(stmts: &[Stmt]) -> Option<&syn::ExprForLoop> {
@@ -264,6 +284,23 @@ pub fn emit(repo: &str) -> String {
         s.push_str(&format!("Definition va_hit (vmm_va vmm_addr size gpa_base : N) : bool := {}.\n", hit.unwrap_or_else(|| die("no containment test"))));
         s.push_str(&format!("Definition va_gpa (vmm_va vmm_addr size gpa_base : N) : N := {}.\n", val.unwrap_or_else(|| die("no value"))));
         s.push_str(&format!("Definition va_shape : list string :=\n  {}.\n\n", q(&shape)));
+    }
+    // set_vring_num: the size test
+    {
+        let f = find_trait_fn(&file, "set_vring_num");
+        let mut cond = None;
+        for st in &f.block.stmts {
+            if let Stmt::Expr(Expr::If(i), _) = st {
+                if i.else_branch.is_none() && toks(&i.then_branch).contains("return Err") {
+                    if cond.is_some() {
+                        die("set_vring_num: more than one refusing test");
+                    }
+                    cond = Some(gallina(&i.cond));
+                }
+            }
+        }
+        s.push_str("(* set_vring_num: sizes the daemon refuses *)\n");
+        s.push_str(&format!("Definition num_bad (num max_queue_size : N) : bool := {}.\n\n", cond.unwrap_or_else(|| die("set_vring_num: no size test"))));
     }
     s.push_str("(* VhostUserHandler::new: which rings a worker is given *)\n");
     s.push_str(&format!("Definition route_member (queues_mask index : N) : bool := {}.\n", member.unwrap_or_else(|| die("new: no membership test"))));
